@@ -118,12 +118,16 @@ fn guard<F: FnOnce() -> Out>(f: F) -> Out {
 // ------------------------------------------------------------------ library
 
 pub struct LibDriver {
-    pub server: Server,
+    pub server: std::sync::Arc<Server>,
 }
 
 impl LibDriver {
     pub fn new<ST: taskchampion_sync_server_core::Storage + 'static>(cfg: ServerConfig, storage: ST) -> Self {
-        LibDriver { server: Server::new(cfg, storage) }
+        LibDriver { server: std::sync::Arc::new(Server::new(cfg, storage)) }
+    }
+    /// several callers (threads) on ONE server object, as the workers of the real executable are
+    pub fn shared(server: std::sync::Arc<Server>) -> Self {
+        LibDriver { server }
     }
 }
 
@@ -205,6 +209,14 @@ pub struct RawReq {
 pub struct HttpDriver<S> {
     pub sys: actix_rt::SystemRunner,
     pub app: S,
+}
+
+/// an application instance of an EXISTING web server (the per-worker `App` of the real executable: all of them share the
+/// server state, hence the one `Server` object)
+pub fn make_http_driver_ws(ws: &WebServer) -> HttpDriver<impl Service<actix_http::Request, Response = ServiceResponse, Error = actix_web::Error>> {
+    let sys = actix_rt::System::new();
+    let app = sys.block_on(test::init_service(App::new().configure(|c| ws.config(c))));
+    HttpDriver { sys, app }
 }
 
 pub fn make_http_driver<ST: taskchampion_sync_server_core::Storage + 'static>(
